@@ -65,7 +65,9 @@ def from_encoder(r, enc_name, payload):
 
 
 def rand_payload(r, n, alpha=None):
-    alpha = alpha or r.choice([bytes(range(256)), b"abcdefghijklmnopqrstuvwxyz ", bytes(range(32, 127)), b"\x00\xff\x80\x7fAz09"])
+    alpha = alpha or r.choice([bytes(range(256)), b"abcdefghijklmnopqrstuvwxyz ", bytes(range(32, 127)), b"\x00\xff\x80\x7fAz09"] * 3
+                              # degenerate contents are payloads too: white space only, NULs only, one repeated byte
+                              + [b" \t\r\n\x0b\x0c", b" ", b"\x00", b"\n", bytes([r.randrange(256)])])
     return bytes(r.choice(alpha) for _ in range(n))
 
 
@@ -212,7 +214,7 @@ def c14_case(r):
         p = rand_payload(r, r.randint(1, 40), bytes(range(256)))
         return from_encoder(r, "unescape", p)
     if k == 4:  # unescape with malformed escapes kept literally
-        arg = b"".join(r.choice([b"%41", b"%", b"%4", b"%zz", b"a", b"%2f", b"%00", b"%FF", b"+", b" ", b"%u0041", b"%25u2713", b"u0041", b"%25"]) for _ in range(r.randint(1, 10)))
+        arg = b"".join(r.choice([b"%41", b"%", b"%4", b"%zz", b"a", b"%2f", b"%00", b"%FF", b"+", b" ", b"%u0041", b"%25u2713", b"u0041", b"%25", b"%uD800", b"%udc00", b"%uD83D%uDE00", b"%u9090%uD9EB"]) for _ in range(r.randint(1, 10)))
         from vf.refs import neturl
         plain = neturl.decode(arg)
         if not plain:
